@@ -126,6 +126,11 @@ func DeepEqual(x, y interface{}) bool {
 	flx, okx := parseFloatIfOk(typx)
 	fly, oky := parseFloatIfOk(typy)
 	if okx && oky {
+		// a FLOAT NOT NULL column of the current row is scanned as float32, the image holds the float64 parsed
+		// from the same decimal text (0.1 is not a float32 value): compare at the column's precision
+		if typx.Kind() == reflect.Float32 || typy.Kind() == reflect.Float32 {
+			return float32(flx) == float32(fly)
+		}
 		return flx == fly
 	}
 
